@@ -113,7 +113,8 @@ def run(rep, prog, tier):
     if isinstance(cls, ast.ClassDef):
         mem = prog.find_member(m, cls, '__str__')
         fn = mem[1]
-        first = fn.body[0] if fn.body else None
+        stmts = [st for st in fn.body if not (isinstance(st, ast.Expr) and isinstance(st.value, ast.Constant))]
+        first = stmts[0] if stmts else None
         ok = isinstance(first, ast.If) and 'is_inf' in ast.unparse(first.test) and first.body and isinstance(first.body[0], ast.Return) and '∞' in ast.unparse(first.body[0])
         rep.ob('R18.inf', '__str__:saturation-first', ok, f'first statement: {ast.unparse(first)[:80] if first is not None else None}', prog.site(mem[0], fn))
     fp = m.defs.get('FloatPrecision')
